@@ -477,7 +477,12 @@ def mtu_agreement(ctx, rule='C10.mtu-agreement'):
     R.check(ok, rule, 'bumble.gatt_server.Server.on_att_exchange_mtu_request | final MTU', f'min({announced}, {req}.client_rx_mtu): the value announced in the response and the client\'s',
             f'the server adopts {sorted(min_args(srv, upd[0].args[0])) if upd else "?"} as ATT_MTU, not min(announced {announced}, client_rx_mtu): its responses and notifications can exceed the MTU the client computed', p.loc(srv))
     from ..sym import ineq, same_ineq
-    g = [ineq(t, pol) for c in upd for t, pol in paths.flat_guards(c)]
+    fg = [(t, pol) for c in upd for t, pol in paths.flat_guards(c)]
+    eb = [(t, pol) for t, pol in fg if isinstance(t, ast.Call) and (dotted(t.func) or '').split('.')[-1] == 'is_enhanced_bearer']
+    R.check(bool(upd) and any(not pol and t.args and norm(t.args[0]) == srv.args.args[1].arg for t, pol in eb), rule, 'bumble.gatt_server.Server.on_att_exchange_mtu_request | not on an enhanced bearer',
+            'the MTU is changed only when the bearer is not an enhanced one (whose ATT_MTU is fixed by its L2CAP channel)',
+            'an Exchange MTU Request received on an enhanced bearer changes its ATT_MTU: the server then sends PDUs longer than the channel MTU, which reach the client cut into several SDUs', p.loc(srv))
+    g = [ineq(t, pol) for t, pol in fg if (t, pol) not in eb]
     R.check(len(g) == 1 and same_ineq(g[0], ineq(f'{req}.client_rx_mtu >= att.ATT_DEFAULT_MTU')), rule, 'bumble.gatt_server.Server.on_att_exchange_mtu_request | lower bound', 'values below the default MTU are ignored', 'the lower bound on client_rx_mtu changed', p.loc(srv))
     # client
     rq = next((c for c in calls_in(cli) if (dotted(c.func) or '').endswith('ATT_Exchange_MTU_Request')), None)
